@@ -378,3 +378,35 @@ func init() {
 		r.Floor("offset computations from a page id in package disk", n, 3)
 	})
 }
+
+func init() {
+	reg("C04-R8", "sequential scans visit delete-marked rows: the slot-advance helpers (TablePage.GetTupleFirstRID / GetNextTupleRID) can still return a slot when IsDeleted(size) is assumed true for it — whether a marked row is visible is decided by the row lock in GetTuple (reader aborts on a foreign uncommitted delete), never by silently skipping the row", func(w *World, r *Report) {
+		isDel := w.FuncObj("storage/access", "IsDeleted")
+		n := 0
+		for _, nm := range []string{"GetTupleFirstRID", "GetNextTupleRID"} {
+			fn := w.Fn("storage/access", "TablePage", nm)
+			n++
+			marked := CutWhen(func(v ssa.Value) bool {
+				c, ok := v.(*ssa.Call)
+				return ok && CalleeObj(c) == isDel
+			}, false)
+			wit := (&PathQ{Fn: fn, Cut: []EdgeCut{marked}, Target: returnsNonNilFirst}).FromEntry()
+			r.Check(wit != nil, "TablePage."+nm+":marked-rows-are-visited", "a delete-marked slot is still handed to the scan (the lock check decides)", "with IsDeleted(size)=true for the inspected slot "+nm+" cannot return it: a row with an uncommitted delete by another transaction silently disappears from sequential scans instead of making the reader wait/abort")
+		}
+		r.Floor("slot-advance helpers", n, 2)
+	})
+
+	reg("C20-R4", "nothing is recovered after the last page flush before the log truncation: in NewSamehadaDB every path from a Redo / Undo call to GCLogFile passes FlushAllPages (otherwise what Undo wrote is not on disk when the log that could redo/undo it is deleted)", func(w *World, r *Report) {
+		a := w.A()
+		fn := w.Fn("samehada", "", "NewSamehadaDB")
+		redo := w.MethodObj("recovery/log_recovery", "LogRecovery", "Redo")
+		undo := w.MethodObj("recovery/log_recovery", "LogRecovery", "Undo")
+		sites := sitesCalling(fn, redo, undo)
+		r.Floor("Redo/Undo sites", len(sites), 2)
+		for _, s := range sites {
+			o := CalleeObj(s.(ssa.CallInstruction))
+			wit := (&PathQ{Fn: fn, Avoid: InstrCallsObj(a.BPMFlushAll, a.BPMFlushAllDirty), Target: InstrCallsObj(a.DMGCLogFile)}).FromAfter([]ssa.Instruction{s})
+			r.Check(wit == nil, "NewSamehadaDB:flush-between-"+o.Name()+"-and-GCLogFile", "the pages changed by "+o.Name()+" are flushed before the log is truncated", "path from "+o.Name()+" to GCLogFile without FlushAllPages: "+w.DescribeWitness(fn, wit))
+		}
+	})
+}
